@@ -109,6 +109,8 @@ ROLES = {
                            _has(f, "self.state['samples'] = ") and _has(f, 'np.empty(')),
     '_update_distances': ('elfi.methods.inference.samplers:Rejection', 'method',
                           lambda f: bool(_calls(f, 'update_distance')) and f.params == ['self']),
+    '_set_adaptive_quantile': ('elfi.methods.inference.samplers:AdaptiveThresholdSMC', 'method',
+                               lambda f: _has(f, '.densratio.fit(') and f.params == ['self']),
     '_run': ('elfi.executor:Executor', 'method',
              lambda f: f.params[-1:] == ['G'] and _has(f, '.predecessors(') and
              _has(f, "['param']")),
